@@ -20,6 +20,7 @@ func TestC02(t *testing.T) {
 	st := StatsFor("C02")
 	rapid.Check(t, func(rt *rapid.T) {
 		c := GenParseCase(rt, parseCfg)
+		c.Builtin = chance(rt, 1, 2, "builtin")
 		Report(rt, "C02", "parse", c, CheckC02(c, st))
 	})
 }
